@@ -333,7 +333,7 @@ def run(ctx):
     if exe is None:
         return
     if ctx.replay:
-        rep = ctx.replay.get("replay", ctx.replay)
+        rep = json.loads(Path(ctx.replay).read_text())["replay"]
         g = "noguard " if rep.get("noguard") else ""
         ok, viols, _ = run_batch(ctx, exe, f"{rep['cfg']}\nsched {g}{rep['sched']}\n", "replay")
         report(ctx, exe, viols, "replay")
